@@ -16,6 +16,8 @@ FEATURE_KINDS = [
     ('zw', np.float32, (0,)),  # zero-width trailing dimension
     ('i64x', np.int64, ()),    # 64-bit integers far beyond 2**53 (hashes, nanosecond timestamps), both signs, incl. the limits
     ('u64x', np.uint64, ()),   # unsigned 64-bit values above 2**63
+    ('be32', np.dtype('>i4'), ()),   # non-native byte order (network-order / IDX-style files): the dtype is part of the value
+    ('bef4', np.dtype('>f4'), (2,)),
 ]
 
 
@@ -46,7 +48,7 @@ def make_column(rng, kind, n, offset=0):
     return np.ones(shape, dtype=np.bool_) if rng.rand() < 0.5 else (rng.rand(*shape) < 0.7)
   if np.issubdtype(dtype, np.integer):
     hi = 255 if dtype == np.uint8 else 10_000
-    return rng.randint(1, hi, size=shape).astype(dtype)
+    return rng.randint(1, hi, size=shape).astype(dtype)   # (astype keeps a non-native byte order)
   return (rng.randn(*shape) + 3.0).astype(dtype)
 
 
